@@ -26,6 +26,9 @@ CHECKS = {
  'C09': dict(tech='Verus contracts (textbook camera frame f,s,u with sqrt radicals; change-of-basis matrices) on the extracted look_at/model_look_at/basis_to_local/local_to_basis (+ normalized, cross, dot, Sub) + z3 (QF_NRA) lemmas in Q[9 coords, 2 radicals], glued by theorem functions',
              text='Deductive proof: look_at_lh/rh, look_at, model_look_at_lh/rh, model_look_at, basis_to_local, local_to_basis (both layouts) equal their textbook matrices; theorem functions prove for all eye != target and up not parallel to the view direction: rotation block orthogonal with determinant +1, last row (0,0,0,1), eye -> origin, target -> (0,0,+-|t-e|), up.x'' = 0 and up.y'' > 0, model_look_at is the two-sided inverse and sends the origin to the eye; local_to_basis maps origin and unit axes to o, o+i, o+j, o+k and basis_to_local undoes it for every orthonormal basis.',
              note=TB + 'sqrt_r axiom; degenerate inputs excluded as in the property.', ref='5 C09'),
+ 'C10': dict(tech='Verus contracts (projection = viewport o perspective divide o proj*mv; unprojection = perspective divide o adj/det inverse of proj*mv o un-viewport; picking matrix from its clip-square requirement) on the extracted world_to_viewport_*/viewport_to_world_*/picking_region (through the real Mul, inverted, shuffle code) + z3 lemma for the picking corners',
+             text='Deductive proof: world_to_viewport_no/zo equal the perspective-divided clip position mapped onto the viewport rectangle (depth to [0,1] in the no flavour, unchanged in zo) whenever clip w != 0; viewport_to_world_no/zo equal the perspective divide of (proj*mv)^-1 applied to the un-viewported point whenever det(proj*mv) != 0 (the inverse being adj/det, proved two-sided under C06); picking_region equals the matrix that maps the window rectangle centre +- delta/2, expressed in clip coordinates, onto [-1,1]^2 (theorem function + lemma), both layouts.',
+             note=TB + 'Genuine defect found and repaired (fix: commit): picking_region operand order. The project/unproject round trip is not discharged as a single composed obligation (see evidence not_decided).', ref='5 C10'),
  'C06': dict(tech='Verus contracts (cofactor/Leibniz determinant, adjugate/determinant inverse) on the extracted determinant/inverted/Mul functions + z3 (QF_NRA) lemmas for det multiplicativity, transpose invariance and M*adj/det = I, glued by Verus-checked theorem functions over the real API',
              text='Deductive proof: determinant (2,3,4; both layouts) equals the cofactor expansion; Mat4::inverted (2x2-block algorithm through the real shuffle/mat2 helper code incl. the bit-packed ShuffleMask4) returns adj(M)/det(M) whenever det != 0; theorem functions calling the real API prove det(M^T)=det(M), layout invariance, det(AB)=det(A)det(B) and M*M^-1 = M^-1*M = I for every real matrix with non-zero determinant, with the polynomial/rational identities discharged by z3 (nlsat / solve-eqs+smt portfolio).',
              note=TB + 'The rigid and affine fast inverses are not yet under contract (listed under not_decided).', ref='5 C06'),
